@@ -87,6 +87,12 @@ pub fn glue_explains(input: &str, tree: &Expr, opts: &subject::Opts, depth: usiz
         if !tokens_complete(&input[..p]) {
             continue;
         }
+        // as built, the operator words need a blank (or the end) after them: a word glued to
+        // -o / -or / -a / -and is not part of the known finding
+        let last_word = input[..p].split(|c: char| is_blank(c) || c == '(' || c == ')').last().unwrap_or("");
+        if matches!(last_word, "-o" | "-or" | "-a" | "-and") {
+            continue;
+        }
         let repaired = format!("{} {}", &input[..p], &input[p..]);
         if glue_explains(&repaired, tree, opts, depth - 1) {
             return true;
